@@ -39,8 +39,8 @@ CLAIMS.update({
  "C09": C("model_checking", "FileHash.tla state machine (ideal / as-built / documented-guard key modes) model-checked; TLC behaviours replayed on a real directory with two processes",
           "M1 on the three key modes; every behaviour of <=3 (quick) / <=4 (+2000 simulated length 5, thorough) file operations replayed with os.utime-controlled mtimes and a private persistent hash cache; directory projection compared after each step, each digest compared with a cold-cache digest.",
           "mtimes are set explicitly (file-system resolution not exercised). Known finding C09-mtime-key matched only when the digest equals the as-built model's prediction.", "6/C09"),
- "C10": C("model_checking", "JobProtocol.tla: TLC exhaustive interleavings (M1); TLC behaviours forced on real processes through gated hook points (M3); hook traces validated by TLC (M4)",
-          "3 processes x every interleaving in the model; complete 2-process behaviours (exhaustive) and simulated 3-process behaviours replayed on forked real processes calling task(cache_root=shared); adversarial free-running races; every trace checked action by action incl. logged file-system state; end state: one body execution, identical outputs.",
+ "C10": C("model_checking", "JobProtocol.tla: TLC exhaustive interleavings (M1); TLC behaviours forced on real processes through gated hook points (M3); hook traces validated by TLC (M4); lock core proved for any number of processes with TLAPS (LockCore.tla) and linked to JobProtocol by a TLC-checked refinement",
+          "3 processes x every interleaving in the model; mutual exclusion / one body / no partial output proved inductive for an arbitrary process set; complete 2-process behaviours (exhaustive) and simulated 3-process behaviours replayed on forked real processes calling task(cache_root=shared); adversarial free-running races; every trace checked action by action incl. logged file-system state; end state: one body execution, identical outputs.",
           "Trusted: TLC, hook placement (Appendix A), normalisation of the hook log, SoftFileLock mutual exclusion on a local FS.", "6/C10"),
  "C11": C("model_checking", "JobProtocol.tla (read-only caches, leftovers, rerun) + RerunProp.tla; TLC histories executed for real; traces validated by TLC",
           "M1 with two read-only caches, leftover directories and rerun flags; every one-process 3-submission history and simulated 2-process histories executed; body counts equal the behaviour's BodyStart steps; read-only caches byte-identical; workflow histories over (rerun, propagate_rerun) compared with RerunProp.",
